@@ -109,12 +109,12 @@ class BlockingStore:
         return getattr(self.inner, n)
 
 
-def _t1_world(seed):
+def _t1_world(seed, ngraphs=3):
     from .. import engine as E
     r = rng(seed, "t1w")
     graphs = {}
     labels = ["apple", "banana", "cherry", "date", "elder"]
-    for gi in range(3):
+    for gi in range(ngraphs):
         nodes = [(f"g{gi}:n{j}", labels[(j + gi) % 5], (["fruit"] if j == 0 else [])) for j in range(4)]
         edges = []
         for j in range(5):
@@ -128,7 +128,7 @@ def t1_case(case) -> List[Tuple[str, str]]:
     from .. import engine as E
     from clematis.engine.stages.t1 import t1_propagate
     seed, perm, workers, text = case["seed"], case["perm"], case["workers"], case["text"]
-    graphs = _t1_world(seed)
+    graphs = _t1_world(seed, case.get("ngraphs", 3))
     fails: List[Tuple[str, str]] = []
     base = {"t1": {"cache": {"enabled": False}}}
     cfg_seq = E.validated_cfg(base)
@@ -261,6 +261,10 @@ def check(run) -> None:
             for workers in ([2, 3] if q else [2, 3, 8]):
                 t1cases.append({"seed": seed, "perm": list(perm), "workers": workers, "text": "apple banana fruit date", "jitter": False})
         t1cases.append({"seed": seed, "perm": [], "workers": 3, "text": "cherry elder apple", "jitter": True})
+        # many active graphs (two-digit task indices): merge order = active_graphs order, not the order of their spellings
+        many = [f"g:{i}" for i in range(12)]
+        for perm in ([], list(reversed(many))):
+            t1cases.append({"seed": seed, "perm": perm, "workers": 4, "text": "apple banana fruit date", "jitter": not perm, "ngraphs": 12})
     for c, fails in zip(t1cases, pmap(t1_case, t1cases, chunk=4)):
         run.traces += 1
         run.case(("t1", json.dumps(c, sort_keys=True)))
